@@ -26,9 +26,14 @@ where
     if let Some(restrictions) = restrictions {
         writeln!(
             writer,
-            "  fn check_restrictions(&self, _restrictions: Option<Rc<restrictions::Restrictions>>) -> error::SoapResult<()>  {{"
+            "  fn check_restrictions(&self, restrictions: Option<Rc<restrictions::Restrictions>>) -> error::SoapResult<()>  {{"
         )?;
 
+        // a simple type derived from this one hands its own facets down: the value has to meet
+        // those and the ones declared here
+        writeln!(writer, "        if restrictions.is_some() {{")?;
+        writeln!(writer, "            self.value.check_restrictions(restrictions)?;")?;
+        writeln!(writer, "        }}")?;
         writeln!(writer, "        let restrictions = Some(")?;
         restrictions.write_xml(writer)?;
         writeln!(writer, ");")?;
